@@ -22,6 +22,7 @@ def shards(tier, seed):
     for t in ("sgio", "iscsi"):
         out.append({"id": "single-" + t, "kind": "single", "transport": t})
         out.append({"id": "pairs-" + t, "kind": "pairs", "transport": t})
+        out.append({"id": "revisit-" + t, "kind": "revisit", "transport": t})
         if tier == "quick":
             out.append({"id": "triples-" + t, "kind": "triples", "transport": t, "n": 500, "all": False})
         else:
@@ -41,10 +42,13 @@ class World:
         self.install = install
         self.mod = sys.modules["sgio" if transport == "sgio" else "iscsi"]
         self.by_dev = {}
+        self.closed_handle_events = 0
         self.mod.handler = self.route
         self.n = 0
 
     def route(self, ev):
+        if ev.get("file_closed"):
+            self.closed_handle_events += 1
         if self.transport == "sgio":
             key = ev["file"].name
         else:
@@ -145,6 +149,8 @@ def run(shard, ctx):
                 use_primary(ctx, s, tgt, wit)
                 w.close(dev)
         return
+    if shard["kind"] == "revisit":
+        return run_revisit(ctx, w, SCSI, t, rng)
     seqs = []
     if shard["kind"] == "pairs":
         seqs = [(a, b) for a in range(32) for b in range(32)]
@@ -188,6 +194,42 @@ def run(shard, ctx):
         for d in devs:
             w.close(d[0])
         ctx.count("histories")
+
+
+def run_revisit(ctx, w, SCSI, t, rng):
+    """one facade moved back and forth between a few live devices, including re-attaching to the device it already holds;
+    every device must stay usable and keep the set of its own type"""
+    import itertools
+
+    patterns = [p for n in (2, 3, 4) for p in itertools.product((0, 1, 2), repeat=n) if len(set(p)) < len(p)]
+    for pat in patterns:
+        for types in ((0, 1, 5), (8, 0x1F, 0), (5, 5, 3), (7, 4, 1)):
+            devs = [w.new_device(ty, 0) for ty in types]
+            wit = {"transport": t, "types": list(types), "attach_order": list(pat)}
+            ctx.case((t, "revisit", types, pat), True, sample=wit if ctx.want_sample() else None)
+            ctx.count("histories")
+            s = None
+            w.closed_handle_events = 0
+            try:
+                for i in pat:
+                    dev, tgt = devs[i]
+                    n0 = len(tgt.log)
+                    if s is None:
+                        s = SCSI(dev)
+                    else:
+                        s(dev)
+                    check_attached(ctx, dev, tgt, types[i], dict(wit, step=i), first_cmd_index=n0)
+                    use_primary(ctx, s, tgt, wit)
+                    for j, (d2, t2) in enumerate(devs):
+                        want = EXPECT.get(types[j])
+                        if hasattr(d2, "_devicetype") and want and name_of(d2.opcodes) != want:
+                            ctx.fail("C16:earlier_device_changed", "device %d (type %02Xh) now has %s" % (j, types[j], name_of(d2.opcodes)), wit)
+            except Exception as e:  # noqa: BLE001
+                ctx.fail("C16:attach_raises.%s" % type(e).__name__, "attach order %r raised %s" % (pat, e), wit, exc=e)
+            if w.closed_handle_events:
+                ctx.fail("C16:command_through_closed_handle", "%d commands went through a closed device handle" % w.closed_handle_events, wit)
+            for d in devs:
+                w.close(d[0])
 
 
 def finalize(merged, tier):
